@@ -156,6 +156,24 @@ def run_family(prop, b, fam, profile, seed, tier):
     return out_file, diffs, bads, {k: int(v) for k, v in done.items()}
 
 
+def source_changed():
+    """files of /repo/src whose content differs from the fingerprint recorded when the model was written"""
+    try:
+        fp = json.load(open(os.path.join(ROOT, "src_fingerprint.json")))["files"]
+    except Exception:
+        return []
+    changed = []
+    for name, h in fp.items():
+        path = os.path.join("/repo/src", name)
+        try:
+            cur = hashlib.sha256(open(path, "rb").read()).hexdigest()
+        except OSError:
+            cur = None
+        if cur != h:
+            changed.append(name)
+    return changed
+
+
 def load_known():
     kf = os.path.join(ROOT, "known_findings.txt")
     findings = []
@@ -246,6 +264,7 @@ def main():
                 print(p.stdout.strip())
         return
 
+    notes = []
     # 1. proof obligations
     if os.environ.get("VERIF_NO_LEAN"):
         sh(["lake", "build", "drv"], cwd=LEAN)
@@ -261,12 +280,18 @@ def main():
         print(f"VIOLATION property={prop} replay={rp} no-failing-input-found")
         write_evidence(prop, tier, seed, lean, 0, 0, {}, {}, [], 1, t0, ["harness build failed"])
         sys.exit(1)
-    # 3. cases
+    # 3. cases (change-directed amplification: when the source differs from what the model was written against,
+    #    the quick tier runs with a 6x case budget; a changed source is information, never a violation)
+    changed = source_changed()
+    gen_tier = tier
+    if changed and tier == "quick":
+        gen_tier = "amp"
+        notes.append("source files differ from the modelled revision: " + ", ".join(changed) + " -> quick tier amplified 6x")
     files, diffs, bads, totals = [], [], [], {"lines": 0, "ok": 0, "raw_identical": 0}
     corpus = os.path.join(ROOT, "corpus", f"{prop}.txt")
     for profile in ("dev", "release"):
         for b, fam in fams:
-            f, d, bd, done = run_family(prop, b, fam, profile, seed, tier)
+            f, d, bd, done = run_family(prop, b, fam, profile, seed, gen_tier)
             files.append(f); diffs += d; bads += bd
             for k in totals:
                 totals[k] += done.get(k, 0)
@@ -277,7 +302,6 @@ def main():
     # 4. verdict
     known = [k for k in load_known() if k["prop"] == prop]
     violations = 0
-    notes = []
     if not lean["ok"]:
         rp = os.path.join(REPLAYS, f"{prop}-proof.json")
         json.dump({"property": prop, "what": "proof obligation no longer checks: " + lean["why"],
